@@ -49,8 +49,18 @@ Theorem C01_group_resize_local : stmt_group_resize_frame.
 Proof. exact group_resize_frame. Qed.
 Print Assumptions C01_group_resize_local.
 
-(* NOT YET PROVED (kept visible): the script-level statement
-     run_script (in_order_script w) bg = Some (over_message be m w bg)
-   for every accepted message table m, value tree w and background bg with
-   |bg| >= over_size; it is decided by the correspondence only (Wire.over_message
-   is the reference encoder the implementation is compared with byte for byte). *)
+From Sbepp Require Import Cursor CursorSpec Checked ScriptSpec ScriptProofs.
+
+(* THE property, at full strength: for every message table whose header /
+   dimension fillers are consistent, every value tree of its shape whose
+   values are representable, and ANY background buffer that is long enough,
+   running the in-order script (fill_message_header; per level: the field
+   setters, then for each group fill_group_header and its entries in order,
+   then the data assignments) with the library's navigation yields exactly the
+   reference image Wire.over_message -- header, fields at their offsets,
+   dimensions, entries at blockLength stride, length-prefixed data -- followed
+   by the untouched rest of the background: every byte that belongs to no
+   written member keeps its previous value. *)
+Theorem C01_encode_script_produces_wire_image : stmt_encode_script_image.
+Proof. exact encode_script_image. Qed.
+Print Assumptions C01_encode_script_produces_wire_image.
